@@ -23,6 +23,7 @@ Work item families (cfg["kind"]):
   equivariance      (d) mirrored / axis-swapped field in the mapped direction == mirrored / swapped result.
 """
 import ast
+from fractions import Fraction
 import itertools
 import os
 import re
@@ -688,6 +689,41 @@ def sc_equivariance(V, P, cfg):
     return dict(y1=y1, y2=y2)
 
 
+def sc_params(V, P, cfg):
+    """set_parameters(): q, shift and backshift follow Langelaar's rules for the user's xi_0, p and nsampling:
+    q = p + ln(ns)/ln(xi_0)  (zero overshoot of the smooth maximum at density xi_0: (ns xi_0^p)^(1/q) = xi_0),
+    shift = 100 tiny^(1/p), backshift = 0.95 ns^(1/q) shift^(p/q)."""
+    import pymoto as pym
+    import math
+    K = Chk(P)
+    dim, ns = cfg["dim"], cfg["nsampling"]
+    dom = _dom(dim)
+    xi = V.real("xi_0", lo="1/16", hi="15/16", default=0.25)
+    p = V.real("p", lo=1, hi=40, default=3.0)
+    if V.symbolic:
+        V.assume(xi != Fraction(1, 2), "non-default xi_0 (the default has its own forward items)")
+    kw = dict(direction=[0.0, 1.0, 0.0] if dim == 3 else [0.0, 1.0], xi_0=xi, p=p)
+    if ns != "default":
+        kw["nsampling"] = ns
+    m = pym.OverhangFilter(pym.Signal("x", np.zeros(dom.nel)), domain=dom, **kw)
+    nsv = m.nsampling
+    K.true("nsampling-default", nsv == ({2: 3, 3: 5}[dim] if ns == "default" else ns), "parameters", info=nsv)
+    m.set_parameters(np.float64)
+    tiny = float(np.finfo(np.float64).tiny)
+    if V.symbolic:
+        from symx import axioms
+        lg = lambda v: (R.of(float(np.log(float(v)))) if not isinstance(v, R) or v.q is not None else axioms.log(v))
+        pw = lambda b_, e_: axioms.power(R.of(b_), R.of(e_))
+    else:
+        lg, pw = math.log, lambda b_, e_: float(b_) ** float(e_)
+    q_ref = p + lg(1.0 * nsv) / lg(xi)
+    K.eq("q == p + ln(ns)/ln(xi_0)", m.q, q_ref, "parameters")
+    sh_ref = 100.0 * pw(tiny, 1.0 / p)
+    K.eq("shift == 100 tiny^(1/p)", m.shift, sh_ref, "parameters")
+    K.eq("backshift == 0.95 ns^(1/q) shift^(p/q)", m.backshift, pw(nsv, 1 / q_ref) * pw(sh_ref, p / q_ref) * 0.95, "parameters")
+    return dict(q=m.q)
+
+
 def _decode_z3_string(t):
     """z3 prints non-ASCII code points as \\u{...}."""
     return re.sub(r"\\u\{([0-9a-fA-F]+)\}", lambda m: chr(int(m.group(1), 16)), t)
@@ -739,7 +775,7 @@ def sc_string_symx(V, P, cfg):
     return dict(ok=1.0)
 
 
-SCEN = {"string-symx": sc_string_symx, "string-enum": sc_string_enum, "vector": sc_vector, "vector-enum": sc_vector_enum, "forward": sc_forward,
+SCEN = {"params": sc_params, "string-symx": sc_string_symx, "string-enum": sc_string_enum, "vector": sc_vector, "vector-enum": sc_vector_enum, "forward": sc_forward,
         "equivariance": sc_equivariance}
 
 
@@ -755,6 +791,8 @@ def _dtag(axis, sign):
 def items(tier):
     q = tier == "quick"
     out = []
+    for dim, ns in ((2, "default"), (3, "default"), (3, 9)):
+        out.append(dict(kind="params", id="params-%dd-ns%s" % (dim, ns), dim=dim, nsampling=ns))
     for dim in (3, 2):
         out.append(dict(kind="string-symx", id="string-symx-unbounded-%dd" % dim, dim=dim))
     if not q:    # refutation search only ("Not confirmed" is all CrossHair can say within the budget); the unbounded
